@@ -1,2 +1,3 @@
+@property
 def spec(self):
     return (self.filters, self.outheight, self.outwidth)
